@@ -324,6 +324,14 @@ impl<M: Manager, W: From<Object<M>>> Pool<M, W> {
             let _ = self.inner.users.fetch_sub(1, Ordering::Relaxed);
         });
 
+        // A recycle timeout cannot be applied without a runtime. Report this
+        // before any idle object is taken out of the pool instead of
+        // treating it like a failed recycle, which would silently discard
+        // every idle object.
+        if timeouts.recycle.is_some() && self.inner.runtime.is_none() {
+            return Err(PoolError::NoRuntimeSpecified);
+        }
+
         let non_blocking = match timeouts.wait {
             Some(t) => t.as_nanos() == 0,
             None => false,
